@@ -62,6 +62,15 @@ def regenerate_guards(pid):
         nold = nt.read_text() if nt.exists() else ""
         if ntext != nold: nt.write_text(ntext)
         info["numpy_code"] = {"module": "LK.Gen.NpC08", "obligations": "LK/Proofs/NpC08.lean", "function": "basic/bias.py:BiasModel.learn", "changed_since_last_run": ntext != nold}
+    if pid == "C06":
+        # array_dcg / fixed_dcg, statement by statement (translate/py2lean_np.py)
+        import py2lean_np
+        nt = LEAN_DIR / "LK" / "Generated" / "NpC06.lean"
+        try: ntext = py2lean_np.translate_dcg(os.path.dirname(lenskit.__file__))
+        except py2lean_np.Unsupported as e: return "untranslatable", str(e), info
+        nold = nt.read_text() if nt.exists() else ""
+        if ntext != nold: nt.write_text(ntext)
+        info["numpy_code"] = {"module": "LK.Gen.NpC06", "obligations": "LK/Proofs/NpC06.lean", "function": "metrics/ranking/_dcg.py:array_dcg, fixed_dcg", "changed_since_last_run": ntext != nold}
     if pid == "C03":
         # the wiring of the standard pipelines, as lenskit's own builders construct it now (translate/wiring_gen.py)
         import wiring_gen
